@@ -1757,23 +1757,41 @@ func runC05Numeric(c *Ctx) {
 				n++
 				okCond := false
 				why := ""
-				switch x := ifi.Cond.(type) {
-				case *ssa.BinOp:
-					if isErrorType(x.X.Type()) && isNilConst(x.Y) {
-						okCond = true
-					} else {
-						why = "a comparison of " + typeShort(x.X.Type()) + " values"
+				var judge func(cv ssa.Value, d int) (bool, string)
+				judge = func(cv ssa.Value, d int) (bool, string) {
+					switch x := cv.(type) {
+					case *ssa.BinOp:
+						if isErrorType(x.X.Type()) && isNilConst(x.Y) {
+							return true, ""
+						}
+						return false, "a comparison of " + typeShort(x.X.Type()) + " values"
+					case *ssa.Call:
+						cal := staticCallee(x)
+						if cal != nil && cal.Pkg != nil && cal.Pkg.Pkg.Path() == "math" && (cal.Name() == "IsNaN" || cal.Name() == "IsInf") {
+							return true, ""
+						}
+						return false, "a call of " + calleeName(x)
+					case *ssa.UnOp:
+						if x.Op == token.NOT && d < 4 {
+							return judge(x.X, d+1)
+						}
+					case *ssa.Phi:
+						// a || / && of admissible tests
+						if d < 4 {
+							for _, e := range x.Edges {
+								if _, isC := e.(*ssa.Const); isC {
+									continue
+								}
+								if ok, w := judge(e, d+1); !ok {
+									return false, w
+								}
+							}
+							return true, ""
+						}
 					}
-				case *ssa.Call:
-					cal := staticCallee(x)
-					if cal != nil && cal.Pkg != nil && cal.Pkg.Pkg.Path() == "math" && (cal.Name() == "IsNaN" || cal.Name() == "IsInf") {
-						okCond = true
-					} else {
-						why = "a call of " + calleeName(x)
-					}
-				default:
-					why = "a condition of another form"
+					return false, "a condition of another form"
 				}
+				okCond, why = judge(ifi.Cond, 0)
 				c.Check(okCond, condPos(ifi), fn, fmt.Sprintf("rejection #%d", n), "rejects on an error value or on NaN/Inf of the parsed number", "a numeral is rejected on "+why+": beyond ParseFloat's own verdict and NaN/Inf, the token's text decides — exponent forms, an upper-case E or other spellings ParseFloat accepts can be refused")
 			}
 		}
